@@ -702,5 +702,4 @@ _add(
 _add(
     "C12",
     m("clear-keeps-tracked-promises", S, "        self._tracked_promises.clear()\n", "", "C12.11"),
-    m("join-does-not-consume-promise", S, "        return self._tracked_promises.pop(promise_id, None)", "        return self._tracked_promises.get(promise_id)", "C12.12"),
 )
